@@ -24,7 +24,17 @@ var gOps = []string{
 	"w1:reconnect", "w1:refresh",
 	"w2:insert 2", "w2:insert 3", "w2:refresh",
 	"merge-open", "w1:vacuum-mid", "w1:vacuum-all",
+	// only in the "ancient write times" slice (gMainOps events come first): row times far older than every version,
+	// so that a cutoff can lie AFTER a delete and BEFORE every version's creation time (a vacuum that purges the
+	// marker without removing history; the table returns to byte-identical earlier contents)
+	"w1:insert 2 with-ancient-write-time", "w1:delete 2 with-ancient-write-time", "w1:vacuum-before-all-versions",
 }
+
+// gMainOps is the number of events of the main alphabet (a prefix of gOps).
+const gMainOps = 14
+
+// gAncientOps is the alphabet of the ancient-write-times slice.
+var gAncientOps = []string{"w1:insert 1", "w1:insert 2 with-ancient-write-time", "w1:delete 2 with-ancient-write-time", "w1:vacuum-before-all-versions", "w1:vacuum-all", "w1:reconnect"}
 
 type gCase struct {
 	Mode  string `json:"mode"` // c09 | c10
@@ -98,8 +108,8 @@ func gRun(r *engine.Run, mode string) int {
 	r.Bounds["node_cache_entries"] = []int{0, 100}
 	_ = epns
 	for _, cf := range cfgs {
-		for a := range gOps {
-			for b := range gOps {
+		for a := 0; a < gMainOps; a++ {
+			for b := 0; b < gMainOps; b++ {
 				cases = append(cases, engine.J(gCase{Mode: mode, EPN: cf.epn, Cache: cf.cache, First: []int{a, b}, Depth: depth, Faults: faults}))
 			}
 			cases = append(cases, engine.J(gCase{Mode: mode, EPN: cf.epn, Cache: cf.cache, First: []int{a}, Depth: 1, Faults: faults}))
@@ -119,6 +129,23 @@ func gRun(r *engine.Run, mode string) int {
 		for _, a := range deep {
 			for _, b := range deep {
 				cases = append(cases, engine.J(gCase{Mode: mode, EPN: cf.epn, Cache: cf.cache, First: []int{a, b}, Depth: depth + 1, Alpha: deep}))
+			}
+		}
+	}
+	// the ancient-write-times slice, same depth as the deeper slice
+	var anc []int
+	for _, name := range gAncientOps {
+		for i, o := range gOps {
+			if o == name {
+				anc = append(anc, i)
+			}
+		}
+	}
+	r.Bounds["ancient_write_times_slice"] = map[string]interface{}{"alphabet": gAncientOps, "depth": depth + 1}
+	for _, cf := range cfgs {
+		for _, a := range anc {
+			for _, b := range anc {
+				cases = append(cases, engine.J(gCase{Mode: mode, EPN: cf.epn, Cache: cf.cache, First: []int{a, b}, Depth: depth + 1, Alpha: anc}))
 			}
 		}
 	}
@@ -163,7 +190,7 @@ func gWorker(raw json.RawMessage) *engine.Result {
 	must(json.Unmarshal(raw, &c))
 	res := &engine.Result{}
 	var sample interface{}
-	nAlpha := len(gOps)
+	nAlpha := gMainOps
 	if len(c.Alpha) > 0 {
 		nAlpha = len(c.Alpha)
 	}
@@ -354,7 +381,24 @@ func gRunSeq(res *engine.Result, c gCase, ops []int, ci int, flt *gFault) (inter
 		}
 		action := op[strings.Index(op, ":")+1:]
 		stmtTime := now()
-		if strings.HasSuffix(action, " with-older-write-time") {
+		if strings.HasSuffix(action, " with-ancient-write-time") {
+			action = strings.TrimSuffix(action, " with-ancient-write-time")
+			var k int
+			fmt.Sscanf(action[7:], "%d", &k)
+			m := model[k]
+			if strings.HasPrefix(action, "insert") {
+				if m != nil {
+					return nil, false // only the first write of the key (no interplay with newer markers)
+				}
+				stmtTime = engine.T(500)
+			} else {
+				if m == nil || !m.live || !m.insTime.Equal(engine.T(500)) {
+					return nil, false // only the delete of the anciently inserted row
+				}
+				stmtTime = engine.T(600)
+			}
+			must(cl.SetWriteTime(stmtTime))
+		} else if strings.HasSuffix(action, " with-older-write-time") {
 			action = strings.TrimSuffix(action, " with-older-write-time")
 			stmtTime = now().Add(-15 * time.Second)
 			must(cl.SetWriteTime(stmtTime))
@@ -454,6 +498,12 @@ func gRunSeq(res *engine.Result, c gCase, ops []int, ci int, flt *gFault) (inter
 				return nil, false // the final vacuum with every cutoff follows anyway
 			}
 			if !vacuumOK(w1, evTimes[len(evTimes)/2]) {
+				return nil, false
+			}
+			record(w1, created["w1"])
+		case action == "vacuum-before-all-versions":
+			// later than the ancient row times, earlier than the creation of every version: purges, removes no history
+			if !vacuumOK(w1, evTimes[0].Add(-time.Second)) {
 				return nil, false
 			}
 			record(w1, created["w1"])
